@@ -12,7 +12,8 @@ LEVEL = "exploration"
 RULE = ("gain vectors of 1..12 entries (log-uniform over 12 decades; classes "
         "all-equal / duplicates / wide spread / single), Pt, noise variance "
         "and Es log-uniform over 1e-3..1e3, gains and noise optionally "
-        "scaled together by 1e-24..1e15; non-trivial = (>=2 channels and "
+        "scaled together by 1e-24..1e15, total power optionally placed at or "
+        "within 1e-12..1e-3 (relative) of a switching point; non-trivial = (>=2 channels and "
         "at least one channel switched off) or Es != 1; distinct = SHA-1 of "
         "the case description")
 LEVEL_TEXT = ("Generated-input search (Hypothesis, seeded, sharded) over gain "
